@@ -333,13 +333,18 @@ def r5_disabled(ctx):
     # the two pattern lists
     from .c10 import disable_pattern_sets
     fd, sets = disable_pattern_sets(ctx)
-    native = {ps for (n2, c2, sep, ps) in sets[False]}
-    plugin = {ps for (n2, c2, sep, ps) in sets[True]}
+    native = {(a['alts'], a['flags'], a['method']) for a in sets[False]}
+    plugin = {(a['alts'], a['flags'], a['method']) for a in sets[True]}
     need(len(native) == 1 and len(plugin) == 1, 'C15.R5: is_disabled does not apply one pattern list per mode')
-    native, plugin = native.pop(), plugin.pop()
+    (native, nflags, nmeth), (plugin, pflags, pmeth) = native.pop(), plugin.pop()
     # everything the native run treats as a disable marker is one for the plugin as well: the lists differ only in pytest-only entries
     ok = set(native) <= set(plugin) and bool(native)
-    rep.note('disable_patterns', {'native': list(native), 'pytest_only': [p for p in plugin if p not in native]})
+    rep.note('disable_patterns', {'native': list(native), 'pytest_only': [p for p in plugin if p not in native], 'flags': sorted(nflags)})
+    same_mode = (nflags, nmeth) == (pflags, pmeth)
+    rep.ob('C15.R5', ctx.loc(fd, fd.node), 'both modes apply their patterns the same way', same_mode,
+           're.%s with flags %s in both modes' % (nmeth, sorted(nflags)) if same_mode else
+           'the native run applies the markers with re.%s flags=%s, the plugin with re.%s flags=%s: a marker the native runner honours (e.g. written in lower case) '
+           'is not one for pytest, so the doctest is omitted natively but run -- not skipped -- under pytest' % (nmeth, sorted(nflags), pmeth, sorted(pflags)), anchor=fd.qualname)
     rep.ob('C15.R5', ctx.loc(fd, fd.node), 'pattern lists differ only on the pytest branch', ok,
            'one base list, extended only under `pytest`' if ok else 'the native and pytest disable patterns differ in more than the pytest-only entries', anchor=fd.qualname)
     # native side: the same is_disabled without the flag
@@ -392,6 +397,8 @@ VARIANTS = [
     fire('plugin-runs-in-return-mode', 'C15.R4', (PL, "        self.dtest.run(on_error='raise')\n", "        self.dtest.run(on_error='return')\n")),
     fire('run-skips-in-native-mode', 'C15.R4', (DE, "            if self.mode == 'pytest':\n                import pytest\n                pytest.skip()\n", "            if True:\n                import pytest\n                pytest.skip()\n")),
     fire('plugin-runs-disabled', 'C15.R5', (PL, "        if self.dtest.is_disabled(pytest=True):\n            pytest.skip('doctest encountered global skip directive')\n", "")),
+    fire('pytest-mode-matches-case-sensitively', 'C15.R5', (DE, "        m = re.match(pattern, self.docsrc, flags=re.IGNORECASE)\n", "        if pytest:\n            m = re.match(pattern, self.docsrc)\n        else:\n            m = re.match(pattern, self.docsrc, flags=re.IGNORECASE)\n")),
+    silent('disable-patterns-joined-once', (DE, "        m = re.match(pattern, self.docsrc, flags=re.IGNORECASE)\n", "        regex = re.compile(pattern, re.I)\n        m = regex.match(self.docsrc)\n")),
     fire('native-patterns-differ', 'C15.R5', (DE, "        if pytest:\n            disable_patterns += [\n", "        if not pytest:\n            disable_patterns += [r'>>>\\s*#\\s*NATIVE_ONLY']\n        if pytest:\n            disable_patterns += [\n")),
     silent('collector-kwargs-reordered',
            (PL, "            examples = list(core.parse_doctestables(modpath, style=style,\n                                                    analysis=analysis))\n", "            examples = list(core.parse_doctestables(modpath, analysis=analysis,\n                                                    style=style))\n")),
